@@ -61,7 +61,7 @@ func runC16(c *Ctx) {
 	defer c.shared("R6", "C15/R1", "a method acts on its own receiver: the lookup returns a cell bound to that receiver, never the shared prototype cell (which a lookup inside the argument list would rebind)", nil, func(s *Ctx) { receiverPerCall(s, "R1") })
 	defer func() {
 		if eu := c.P.LangFunc("(*Evaluator).evalUnaryExpr"); eu != nil {
-			c.shared("R7", "C09/R5", "pluck leaves the original unchanged although the plucked cell shares the number's storage: numbers are never updated in place (++ / -- assign a new value through evalAssignment)", nil, func(s *Ctx) { incdecTable(s, "R5", eu) })
+			c.shared("R7", "C09/R5", "pluck leaves the original unchanged although the plucked cell shares the number's storage: numbers are never updated in place (++ / -- assign a new value through evalAssignment)", func(o Obligation) bool { return !strings.HasSuffix(o.Key, "-result") }, func(s *Ctx) { incdecTable(s, "R5", eu) })
 		}
 	}()
 	defer c.shared("R4", "C01/R6", "a builtin or method called with missing arguments reports it: the argument helper tests the index against the argument count before it indexes", keyHas("checkArg"), func(s *Ctx) { indexGuards(s, "R6") })
